@@ -205,7 +205,7 @@ pub fn usize_boundaries() -> Vec<u64> {
 fn len_strategy() -> BoxedStrategy<u64> {
     prop_oneof![
         3 => prop::sample::select(vec![0u64, 1, 2, 3, 4, 8, 15, 16, 17, 31, 32, 255, 256, 257, 300, 511, 512, 513, 600]),
-        2 => 0u64..=40,
+        6 => 0u64..=40,
         1 => 0u64..=600,
     ]
     .boxed()
@@ -227,8 +227,8 @@ fn item_strategy(excl: Excl, huge: bool) -> BoxedStrategy<(Op, Vec<u8>)> {
     let mut items: Vec<(u32, BoxedStrategy<(Op, Vec<u8>)>)> = vec![
         (4, any::<u8>().prop_map(|b| (Op::ReadU8, vec![b])).boxed()),
         (3, Just((Op::PeekU8, vec![])).boxed()),
-        (2, prop_oneof![9 => 0u8..=1, 1 => any::<u8>()].prop_map(|b| (Op::ReadBool, vec![b])).boxed()),
-        (2, (0u16..=300).prop_flat_map(|n| bytes(n as usize).prop_map(move |p| (Op::ManyU8(n), p))).boxed()),
+        (2, prop_oneof![29 => 0u8..=1, 1 => any::<u8>()].prop_map(|b| (Op::ReadBool, vec![b])).boxed()),
+        (2, prop_oneof![4 => 0u16..=20, 1 => 0u16..=300].prop_flat_map(|n| bytes(n as usize).prop_map(move |p| (Op::ManyU8(n), p))).boxed()),
         (
             3,
             prop_oneof![
@@ -253,8 +253,8 @@ fn item_strategy(excl: Excl, huge: bool) -> BoxedStrategy<(Op, Vec<u8>)> {
                 .prop_flat_map(|n| bytes(n as usize).prop_map(move |p| (Op::ReadArray(n), p)))
                 .boxed(),
         ));
-        items.push((2, (0u16..=40).prop_flat_map(|n| bytes(n as usize * 8).prop_map(move |p| (Op::ManyU64(n), p))).boxed()));
-        items.push((2, (0u16..=100).prop_flat_map(|n| bytes(n as usize * 3).prop_map(move |p| (Op::ManyPair(n), p))).boxed()));
+        items.push((2, prop_oneof![4 => 0u16..=4, 1 => 0u16..=40].prop_flat_map(|n| bytes(n as usize * 8).prop_map(move |p| (Op::ManyU64(n), p))).boxed()));
+        items.push((2, prop_oneof![4 => 0u16..=8, 1 => 0u16..=100].prop_flat_map(|n| bytes(n as usize * 3).prop_map(move |p| (Op::ManyPair(n), p))).boxed()));
     }
     if !excl.slice {
         let b = usize_boundaries();
@@ -274,9 +274,10 @@ fn item_strategy(excl: Excl, huge: bool) -> BoxedStrategy<(Op, Vec<u8>)> {
         items.push((
             3,
             prop_oneof![
-                4 => prop::collection::vec(0x20u8..0x7f, 0..=600),
-                3 => prop::collection::vec(any::<char>(), 0..80).prop_map(|c| c.into_iter().collect::<String>().into_bytes()),
-                1 => prop::collection::vec(any::<u8>(), 0..40),
+                1 => prop::collection::vec(0x20u8..0x7f, 0..=600),
+                5 => prop::collection::vec(0x20u8..0x7f, 0..=40),
+                5 => prop::collection::vec(any::<char>(), 0..20).prop_map(|c| c.into_iter().collect::<String>().into_bytes()),
+                1 => prop::collection::vec(any::<u8>(), 0..8),
             ]
             .prop_map(|p| (Op::ReadString(p.len() as u16), p))
             .boxed(),
